@@ -5,7 +5,7 @@ from ..spec import And, Or, Not, Implies, Iff, tb
 from ..values import SymInt, SymBool, SymFloat, SymStr, zint, mkint, mkbool, zbool, _floatval_nofork
 from .. import engine as E
 from .. import models
-from .common import ok_result, err_is, any_error, is_record, isint, isnum, isstr, CODES
+from .common import ok_result, err_is, any_error, is_record, isint, isnum, isstr, CODES, DIGITS
 
 ERR8 = [c for c in CODES if c != '#ERROR!']
 GROUPINGS = {
@@ -198,6 +198,9 @@ PYCMP = {'>': lambda a, b: a > b, '<': lambda a, b: a < b, '=': lambda a, b: a =
          '<=': lambda a, b: a <= b, '<>': lambda a, b: a != b, '': lambda a, b: a == b}
 
 
+KFORMS = ('dec', 'dotlead', 'negdec', 'exp', 'trail')
+
+
 def crit_text(env, op, num):
     s = models.m_str(num) if env.symbolic else str(num)
     return op + s if op else s
@@ -213,8 +216,9 @@ class Criteria(Harness):
     functions = ('mathtrig.SUMIF', 'mathtrig.SUMIFS', 'statistical.COUNTIF', 'statistical.AVERAGEIF', 'statistical.AVERAGEIFS',
                  'statistical.MAXIFS', 'utils.parse_criteria', 'utils.REGEX_CRITERIA', 'helper.number.to_number')
     bounds = 'lists of 1..3 items (quick) / 1..4 (thorough) of integers |x| <= 999, criteria ranges of equal length, criterion = ' \
-             'one of 6 operators or none + an integer |c| <= 999 rendered as text; one criterion (all six functions), two and three criteria (the *IFS)'
-    outside = ('decimal numbers in items or criteria', 'criteria ranges of unequal length')
+             'one of 6 operators or none + an integer |c| <= 999 rendered as text; one criterion (all six functions), two and three criteria (the *IFS); the criterion number also written d.d, .d, -d.d, ' \
+             'd e d and dd. (symbolic digits) against cells |c| <= 12'
+    outside = ('decimal numbers in items', 'criteria ranges of unequal length')
 
     def cases(self, tier):
         ns = (1, 2, 3) if tier == 'quick' else (1, 2, 3, 4)
@@ -228,6 +232,13 @@ class Criteria(Harness):
                 for op in ('>', '=', '<='):
                     for op2 in ('<', '<>'):
                         out.append({'fn': fn, 'n': n, 'op': op, 'two': True, 'op2': op2})
+            # the criterion number written as a decimal, with a leading point, negative, or in exponent form
+            if fn == 'SUMIFS':
+                for form in KFORMS:
+                    for op in CRIT_OPS:
+                        out.append({'fn': fn, 'n': 2, 'op': op, 'two': False, 'form': form})
+                        if op in ('>', '=', None, ''):
+                            out.append({'fn': 'COUNTIF', 'n': 2, 'op': op, 'two': False, 'form': form})
             # three criteria pairs
             for n in (2,) if tier == 'quick' else (2, 3):
                 for op, op2, op3 in (('>', '<', '<>'), ('=', '<=', '>='), ('<>', '>', '=')):
@@ -239,6 +250,13 @@ class Criteria(Harness):
         lim = 9 if p.get('op3') else 999      # three criteria: one-digit criterion numbers keep the rendering forks small
         mk = lambda nm: e.fresh_int(nm, -lim, lim)
         inp = {'items': [mk('x%d' % i) for i in range(n)], 'cells': [mk('c%d' % i) for i in range(n)], 'k': mk('k')}
+        if p.get('form'):
+            d = lambda nm: e.fresh_str(nm, 1, alphabet=DIGITS).cps
+            lit = lambda t: tuple(ord(c) for c in t)
+            inp['ktext'] = SymStr({'dec': lambda: d('ka') + lit('.') + d('kb'), 'dotlead': lambda: lit('.') + d('kb'),
+                                   'negdec': lambda: lit('-') + d('ka') + lit('.') + d('kb'), 'exp': lambda: d('ka') + lit('e') + d('kb'),
+                                   'trail': lambda: d('ka') + d('kb') + lit('.')}[p['form']]())
+            inp['cells'] = [e.fresh_int('c%d' % i, -12, 12) for i in range(n)]
         if p['two']:
             inp['cells2'] = [mk('d%d' % i) for i in range(n)]
             inp['k2'] = mk('k2')
@@ -250,6 +268,8 @@ class Criteria(Harness):
     def run(self, env, inp, p):
         fn = p['fn']
         vs = {'vitems': inp['items'], 'vcells': inp['cells'], 'vcrit': crit_text(env, p['op'], inp['k'])}
+        if p.get('form'):
+            vs['vcrit'] = (p['op'] + inp['ktext']) if p['op'] else inp['ktext']
         if fn in ('SUMIF', 'COUNTIF'):
             # single-range forms select on the items themselves
             return self.parse_with(env, '%s(vcells,vcrit)' % fn, vs)
@@ -270,7 +290,10 @@ class Criteria(Harness):
             return False
         fn, n = p['fn'], p['n']
         items = inp['cells'] if fn in ('SUMIF', 'COUNTIF') else inp['items']
-        sel = [PYCMP[p['op']](c, inp['k']) for c in inp['cells']]
+        k = inp['k']
+        if p.get('form'):
+            k = models.m_float(inp['ktext']) if env.symbolic else float(inp['ktext'])
+        sel = [PYCMP[p['op']](c, k) for c in inp['cells']]
         if p['two']:
             sel = [And(s, PYCMP[p['op2']](d, inp['k2'])) for s, d in zip(sel, inp['cells2'])]
         if p.get('op3'):
@@ -309,15 +332,17 @@ class Wildcards(Harness):
     prop = 'C11'
     doc = 'COUNTIF / SUMIFS with a text criterion containing * and ? select exactly the text cells matching the pattern'
     functions = ('utils.parse_criteria', 'statistical.COUNTIF', 'mathtrig.SUMIFS')
-    bounds = 'text cells of length 0..2 over lower-case letters a..c, pattern of length 1..3 over {a,b,*,?} containing a wildcard; 1..2 cells'
+    bounds = 'text cells of length 1..3 (thorough 0..4) over lower-case letters a..c, pattern of length 1..4 (thorough 1..5) over {a,b,*,?} containing a wildcard; 1..2 cells'
     outside = ('patterns containing [ or non-letter literal characters', 'case-insensitive matching')
 
     def cases(self, tier):
         out = []
         for fn in ('COUNTIF', 'SUMIFS'):
             for n in (1, 2):
-                for lp in (1, 2, 3):
-                    for lc in ((0, 1, 2, 3) if tier == 'thorough' else (1, 2)):
+                for lp in ((1, 2, 3, 4) if tier == 'quick' else (1, 2, 3, 4, 5)):
+                    for lc in ((0, 1, 2, 3, 4) if tier == 'thorough' else (1, 2, 3)):
+                        if n == 2 and lp + lc > 6:
+                            continue
                         out.append({'fn': fn, 'n': n, 'lp': lp, 'lc': lc})
         return out
 
